@@ -464,4 +464,45 @@ def rule_e(ctx):
     return r
 
 
-RULES = [rule_a, rule_b, rule_c, rule_d, rule_e]
+
+def rule_f(ctx):
+    r = RuleResult("C18-f", "a leading byte-order mark is skipped for all three syntaxes: the scan_char('\\u{feff}') sits in a parser method that no front end overrides "
+                   "(or in every override), on the way from the shared entry point")
+    prog = ctx.prog()
+    sites = []
+    for b in prog.bodies.values():
+        if b.crate != "grass_compiler" or "/parse/" not in b.file:
+            continue
+        for c in b.calls():
+            if (c.name() or c.callee or "").endswith("BaseParser::scan_char") and len(c.args) >= 2:
+                v = an.trace_operand(b, c.args[1])
+                if v.root[0] == "const" and str(v.root[1]) in ("\ufeff", "'\ufeff'"):
+                    sites.append((b, c))
+    if not sites:
+        r.violate("bom|skipped", "no parser method skips a leading U+FEFF any more: a BOM becomes part of the first selector or breaks the first at-rule")
+        return r
+    # which StylesheetParser methods does each front end override?
+    overrides = {}
+    for crate, imp in prog.hir_items("impls"):
+        t = imp.get("trait", "") or ""
+        if t.endswith("::StylesheetParser"):
+            overrides[(imp["self"].get("adt", "") or "?").rsplit("::", 1)[-1]] = {i["name"] for i in imp["items"]}
+    if len(overrides) < 3:
+        raise AnchorMissing("expected three StylesheetParser impls, found %s" % sorted(overrides))
+    for b, c in sites:
+        leaf = b.path.rsplit("::", 1)[-1]
+        key = "bom|%s" % leaf
+        if "StylesheetParser::" in b.path and not b.path.startswith("<"):
+            # a default method of the trait: every front end that overrides it loses the skip
+            losers = sorted(ty for ty, names in overrides.items() if leaf in names)
+            if losers:
+                r.violate(key, "the BOM is skipped in the default StylesheetParser::%s, which %s overrides without skipping it: a leading U+FEFF changes the result for that "
+                          "syntax only (SCSS and the indented syntax no longer agree)" % (leaf, ", ".join(losers)), c.loc())
+            else:
+                r.ok(key, where="default method not overridden by %s" % sorted(overrides))
+        else:
+            r.ok(key, where=b.path)
+    return r
+
+
+RULES = [rule_a, rule_b, rule_c, rule_d, rule_e, rule_f]
